@@ -384,4 +384,13 @@ def arc_side(repo: Repo) -> RuleRun:
 
 arc_side.rule_id = "C07.ARC-SIDE"
 
-RULES = [kind_registry, dedup, direction, reversal, face_edge_slots, curve_direction, edge_slots, length_direction, arc_side]
+def validity_tolerance(repo: Repo) -> RuleRun:
+    """'every non-degenerate curved edge is written': what counts as degenerate is decided by Edge.is_valid / ArcEdgeBase.is_valid. Same rule as C08.VALIDITY-TOLERANCE."""
+    from . import c08
+
+    return c08.validity_tolerance(repo, PROP, "C07.VALIDITY-TOLERANCE")
+
+
+validity_tolerance.rule_id = "C07.VALIDITY-TOLERANCE"
+
+RULES = [kind_registry, dedup, direction, reversal, face_edge_slots, curve_direction, edge_slots, length_direction, arc_side, validity_tolerance]
